@@ -1,6 +1,7 @@
 package main
 
 import (
+	"go/token"
 	"strings"
 
 	"golang.org/x/tools/go/ssa"
@@ -346,5 +347,152 @@ func init() {
 	reg("C20", "C20.9", "T6", "the retry decision is the integration's: Integration.Notify hands the batch to its notifier and returns the notifier's (recoverable, error) unchanged", func(o *Ob) {
 		integrationPassThroughRule(o)
 		o.MinSites(1)
+	})
+}
+
+// sliceBoundsRule: truncation cuts a prefix x[:h].  A cut never panics and never keeps more than it may only if h is
+// known not to exceed len(x) where the cut is made.  Accepted evidence, per cut:
+//
+//	(a) the cut is only reachable under a test that bounds h (or the value h was decremented from) by len(x);
+//	(b) h is len(y)-1 for a y that is itself a prefix of x (a shrinking loop);
+//	(c) h is min(..., len(x)).
+//
+// A bound on a different measure of the same text (bytes of the string vs. runes of its conversion) is not evidence.
+func sliceBoundsRule(o *Ob) {
+	e := o.E
+	for _, name := range []string{"am/notify.TruncateInRunes", "am/notify.TruncateInBytes", "am/notify/webhook.truncateAlerts"} {
+		fn := o.Fn(name)
+		n := 0
+		for _, in := range AllInstrs(fn) {
+			sl, ok := in.(*ssa.Slice)
+			if !ok || sl.High == nil {
+				continue
+			}
+			n++
+			base := sl.X
+			// the underlying sequence when x is itself a prefix of it
+			for {
+				if p, ok := base.(*ssa.Slice); ok && p.Low == nil {
+					base = p.X
+					continue
+				}
+				break
+			}
+			bx := e.X(fn, base)
+			o.Site(sl, fnName(fn)+": "+bx+"[:"+e.X(fn, sl.High)+"]")
+			if sliceHighBounded(e, fn, sl, base) {
+				o.Checks++
+				o.Passed++
+				continue
+			}
+			o.Fail("slice-bound|"+fnName(fn)+"|"+e.X(fn, sl.High), "the cut "+clip(bx)+"[:"+e.X(fn, sl.High)+"] is not bounded by len("+clip(bx)+") on every path (a text with fewer elements than the bound panics instead of being truncated)", sl)
+		}
+		o.Check(n >= 1, "slice-sites|"+fnName(fn), fnName(fn)+" no longer cuts a prefix", fnFirst(fn))
+	}
+}
+
+func sliceHighBounded(e *Eng, fn *ssa.Function, sl *ssa.Slice, base ssa.Value) bool {
+	lens := []string{"len(" + e.X(fn, base) + ")", "len(" + e.X(fn, sl.X) + ")"}
+	isLenOfBase := func(v ssa.Value) bool {
+		s := e.X(fn, v)
+		return s == lens[0] || s == lens[1]
+	}
+	// prefixOfBase: y is base, a prefix of it, or the sliced value itself (possibly through phis)
+	var prefixOfBase func(y ssa.Value, seen map[ssa.Value]bool) bool
+	prefixOfBase = func(y ssa.Value, seen map[ssa.Value]bool) bool {
+		if seen[y] {
+			return true
+		}
+		seen[y] = true
+		switch v := y.(type) {
+		case *ssa.Phi:
+			for _, ed := range v.Edges {
+				if !prefixOfBase(ed, seen) {
+					return false
+				}
+			}
+			return true
+		case *ssa.Slice:
+			return v.Low == nil && prefixOfBase(v.X, seen)
+		}
+		return y == base
+	}
+	guarded := func(h ssa.Value, a *Alt) bool {
+		hs := []string{e.X(fn, h)}
+		if bo, ok := h.(*ssa.BinOp); ok && bo.Op == token.SUB {
+			if k, isK := bo.Y.(*ssa.Const); isK && k.Value != nil && k.Int64() >= 0 {
+				hs = append(hs, e.X(fn, bo.X))
+			}
+		}
+		for _, hx := range hs {
+			for _, ln := range lens {
+				// either side may be converted to the other's integer type
+				hq := `(conv:\w+\()?` + regexpQuote(hx) + `\)?`
+				lq := `(conv:\w+\()?` + regexpQuote(ln) + `\)?`
+				lits := []LitM{
+					LRe(`\(`+hq+` < `+lq+`\)`, true),  // h < len
+					LRe(`\(`+lq+` < `+hq+`\)`, false), // ¬(len < h)
+					LRe(`\(`+hq+` == `+lq+`\)|\(`+lq+` == `+hq+`\)`, true),
+				}
+				if e.OnlyUnder(sl, lits...) || a != nil && e.AltUnder(*a, lits...) {
+					return true
+				}
+			}
+		}
+		return false
+	}
+	var bounded func(h ssa.Value, a *Alt, seen map[ssa.Value]bool, depth int) bool
+	bounded = func(h ssa.Value, a *Alt, seen map[ssa.Value]bool, depth int) bool {
+		if depth > 4 {
+			return false
+		}
+		if isLenOfBase(h) {
+			return true
+		}
+		switch v := h.(type) {
+		case *ssa.Call:
+			if b, isB := v.Call.Value.(*ssa.Builtin); isB && b.Name() == "min" {
+				for _, x := range v.Call.Args {
+					if bounded(x, a, seen, depth+1) {
+						return true
+					}
+				}
+			}
+		case *ssa.BinOp:
+			if v.Op == token.SUB {
+				if k, isK := v.Y.(*ssa.Const); isK && k.Value != nil && k.Int64() >= 0 {
+					// len(y) - c for a prefix y of the base; or a bounded value made smaller
+					if c, ok := v.X.(*ssa.Call); ok {
+						if b, isB := c.Call.Value.(*ssa.Builtin); isB && b.Name() == "len" && prefixOfBase(c.Call.Args[0], map[ssa.Value]bool{ssa.Value(sl): true}) {
+							return true
+						}
+					}
+					if seen[v.X] || bounded(v.X, a, seen, depth+1) {
+						return true
+					}
+				}
+			}
+		case *ssa.Phi:
+			if seen[h] {
+				return true
+			}
+			seen[h] = true
+			for i, ed := range v.Edges {
+				alt := Alt{ed, v.Block().Preds[i], v.Block()}
+				if !bounded(ed, &alt, seen, depth+1) {
+					return false
+				}
+			}
+			return true
+		}
+		return guarded(h, a)
+	}
+	return bounded(sl.High, nil, map[ssa.Value]bool{}, 0)
+}
+
+func init() {
+	reg("C20", "C20.10", "T1,T12", "truncation never cuts beyond the text: every prefix cut x[:h] in TruncateInRunes, TruncateInBytes and the webhook's truncateAlerts is made under evidence that h ≤ len(x) (a bound on the same sequence, a shrinking prefix, or min)", func(o *Ob) {
+		sliceBoundsRule(o)
+		o.MinSites(4)
 	})
 }
